@@ -74,6 +74,13 @@ def cases(tier, seed):
                  'circuit': {'name': 'net', 'nodes': {'m': 'M', 'a': 'Ta'},
                              'edges': [['m/ro/z', 'a/to/u', None, {'weight': 2.0, 'delay': DS[i][0], 'spread': DS[i][1]}]]}},
                 'one')
+    for i in range(0, len(DS), 2):
+        for order in (('rz', 'rx'), ('rx', 'rz')):
+            tpls = {'M': [[o, {}] for o in order], 'Ta': [['to', {}]]}
+            add({'ops': C09.OPS, 'node_tpls': tpls, 'edge_tpls': {}, 'share': True,
+                 'circuit': {'name': 'net', 'nodes': {'m': 'M', 'a': 'Ta'},
+                             'edges': [['m/rz/z', 'a/to/u', None, {'weight': 2.0, 'delay': DS[i][0], 'spread': DS[i][1]}]]}},
+                'one')
     # Connectivity(delays, spread): one and two kernels leaving one population variable
     for s1, s2 in ((0.5, 0.7), (0.7, 0.5), (0.5, None), (0.5, 0.5), (0.35, 0.7)):
         for d2 in (1.0, 0.5):
